@@ -155,3 +155,66 @@ def build_msg(m, byname, variant=0):
     else:
         msg.avps = avps
     return msg
+
+
+# ---------------------------------------------------------------- build paths that mutate: grow, then shrink back
+
+def first_leaf(a):
+    """first leaf AVP (abstract) found in a, depth first"""
+    if not a["group"]:
+        return a
+    for m in a["members"]:
+        l = first_leaf(m)
+        if l is not None:
+            return l
+    return None
+
+
+def nested_leaf(a):
+    """a leaf that sits inside a nested group of group a (preferred) or any leaf of a"""
+    for m in a["members"]:
+        if m["group"]:
+            l = first_leaf(m)
+            if l is not None:
+                return l
+    return first_leaf(a)
+
+
+def key_of(container, obj):
+    for k, v in vars(container).items():
+        if v is obj and "_avp" in k and k != "_avps":
+            return k
+    raise KeyError("appended AVP has no attribute name")
+
+
+def build_avp_gs(a, byname, variant=0):
+    """like build_avp, but every Grouped AVP is built with one extra member (an equal-valued copy of a leaf
+    nested inside it) which is popped again: the final content is the same"""
+    if a.get("cls") is None or not a["group"]:
+        return build_avp(a, byname, variant)
+    d = byname[a["cls"]]
+    members = [build_avp_gs(m, byname, variant) for m in a["members"]]
+    g = d.cls(members)
+    leaf = nested_leaf(a)
+    if leaf is not None:
+        extra = build_avp(leaf, byname, variant)
+        g.append(extra)
+        g.pop(key_of(g, extra))
+    return g
+
+
+def build_msg_gs(m, byname, variant=0):
+    from bromelia.base import DiameterMessage
+    base = build_msg({"h": m["h"], "avps": []}, byname, variant)
+    avps = [build_avp_gs(a, byname, variant) for a in m["avps"]]
+    msg = DiameterMessage(base.header, avps)
+    leaf = None
+    for a in m["avps"]:
+        leaf = first_leaf(a)
+        if leaf is not None:
+            break
+    if leaf is not None:
+        extra = build_avp(leaf, byname, variant)
+        msg.append(extra)
+        msg.pop(key_of(msg, extra))
+    return msg
